@@ -395,6 +395,17 @@ fn check_exactly_once(log: &[Ev], n: u32, what: &str, ctx: &str, rep: &Report) -
     true
 }
 
+/// An immediate-flush sink flushes its stream after every entry, whatever the entry's fate (on a
+/// tee, a branch that accepted the entry must not be left unflushed because the other branch
+/// failed): when `append` has returned, the last thing every stream saw is a flush.
+fn flushed_after_append(streams: &[&Arc<StreamShared>], unflushed: &mut Option<String>, what: &str, seq: u32) {
+    for (i, sh) in streams.iter().enumerate() {
+        if unflushed.is_none() && matches!(sh.log().last(), Some(Ev::Next { .. })) {
+            *unflushed = Some(format!("{what}: after append #{seq} returned, stream {i} had been handed the entry but not flushed since"));
+        }
+    }
+}
+
 fn sinks_part(args: &Args, rep: &Report, rounds: u64) {
     let mut rng = Rng::derive(args.seed, 0xabc);
     for round in 0..rounds {
@@ -409,6 +420,7 @@ fn sinks_part(args: &Args, rep: &Report, rounds: u64) {
         let ctx = format!("kind={kind} n={n} err_pm={err_pm} flush_fail={flush_fail} seed={seed}");
         rep.eval();
         rep.distinct(Fnv::new().u64(kind).u64(err_pm).u64(flush_fail as u64).u64((n as u64).min(8)).finish());
+        let mut unflushed: Option<String> = None;
         let appended = catch_unwind(AssertUnwindSafe(|| -> Vec<(String, Arc<StreamShared>)> {
             match kind {
                 0 => {
@@ -416,6 +428,7 @@ fn sinks_part(args: &Args, rep: &Report, rounds: u64) {
                     let sink = FlushImmediately::<IdEntry, _>::new(sh.stream());
                     for s in 0..n {
                         sink.append(IdEntry::new(0, s));
+                        flushed_after_append(&[&sh], &mut unflushed, "FlushImmediately typed", s);
                     }
                     vec![("FlushImmediately typed".into(), sh)]
                 }
@@ -424,6 +437,7 @@ fn sinks_part(args: &Args, rep: &Report, rounds: u64) {
                     let sink = FlushImmediately::new_boxed(sh.stream());
                     for s in 0..n {
                         sink.append_any(IdEntry::new(0, s));
+                        flushed_after_append(&[&sh], &mut unflushed, "FlushImmediately boxed", s);
                     }
                     vec![("FlushImmediately boxed".into(), sh)]
                 }
@@ -432,6 +446,7 @@ fn sinks_part(args: &Args, rep: &Report, rounds: u64) {
                     let sink = AnyFlushImmediately::new(sh.stream());
                     for s in 0..n {
                         sink.append_any(IdEntry::new(0, s));
+                        flushed_after_append(&[&sh], &mut unflushed, "AnyFlushImmediately", s);
                     }
                     vec![("AnyFlushImmediately".into(), sh)]
                 }
@@ -442,6 +457,7 @@ fn sinks_part(args: &Args, rep: &Report, rounds: u64) {
                     let sink = FlushImmediately::<IdEntry, _>::new(tee(a.stream(), b.stream()));
                     for s in 0..n {
                         sink.append(IdEntry::new(0, s));
+                        flushed_after_append(&[&a, &b], &mut unflushed, "FlushImmediately over tee", s);
                     }
                     vec![("tee branch 1".into(), a), ("tee branch 2".into(), b)]
                 }
@@ -477,6 +493,10 @@ fn sinks_part(args: &Args, rep: &Report, rounds: u64) {
                 return;
             }
             Ok(streams) => {
+                if let Some(u) = unflushed {
+                    rep.violation("accepted-entry-left-unflushed", json!({"ctx": ctx, "what": u}));
+                    return;
+                }
                 for (what, sh) in streams {
                     let log = sh.log();
                     rep.count("sink_entries_checked", n as u64);
